@@ -2,13 +2,14 @@ SPECIFICATION Spec
 CONSTANTS
   Guids = {"g1"}
   RuleIds = {"", "r1"}
-  Versions = {"1.0", "2.0"}
+  Contents = {"c1", "c2"}
+  Versions = {"2.0"}
   ModeOf <- MCModeOf
-  RulesKeyedOnIdOnly = FALSE
+  RulesKey = "item"
   IdsIdentifyContent = FALSE
   InitScenarios = {"fresh"}
-  InitDocs <- DocsEmptyId
-  MaxReconf = 3
+  InitDocs <- DocsRules
+  MaxReconf = 2
   MaxFaults = 1
   MaxCrash = 0
   MaxDamage = 0
